@@ -455,9 +455,15 @@ def _mask(ctx) -> None:
     oth = (CO2, ("call", ("attr", CS, "_check_duplicate"), (CO2,), ()))
     col_pair = row_pair = 0
     tprobs = []
-    for e in ci2.events:
-        if e.kind != "elem" or not e.loops:
-            continue
+    from types import SimpleNamespace as _NS
+    elem_like = []
+    for e in ci2.events:                  # (elements of a comprehension, and items appended by an explicit loop)
+        if e.kind == "elem" and e.loops:
+            elem_like.append(e)
+        elif e.kind == "call" and e.loops and e.term[1][0] == "attr" and e.term[1][2] == "append" and e.term[1][1][0] == "obj" \
+                and len(e.term[2]) == 1:
+            elem_like.append(_NS(kind="elem", loops=e.loops, conds=e.conds, value=e.term[2][0], node=e.node, term=e.term[1][1]))
+    for e in elem_like:
         lp = ci2.loops[e.loops[-1]]
         if lp.domain is None or lp.domain[0] != "tuple" or len(lp.domain[1]) != 2:
             continue
@@ -482,7 +488,7 @@ def _mask(ctx) -> None:
                               "not the table of empty boolean columns that t0 == 1 gives")
             y = ("elem", d1, lp.id)
             guarded = any(x[0] == "cmp" and x[1] in ("Is", "IsNot") and y in (x[2], x[3]) and ("const", "NoneType", None) in (x[2], x[3])
-                          for x in subterms(e.value))
+                          for x in list(subterms(e.value)) + [c for c, _ in flatten_conds(e.conds[len(lp.conds):])])
             if not guarded:
                 tprobs.append("in the row-wise form a None entry of the sequence is compared with the row as a scalar: t != [None, 2] is True "
                               "in the None row where column != sequence is False")
